@@ -186,7 +186,7 @@ func pppoeServerTarget(name string, etherType uint16, build func(*rapid.T) *bld,
 					lastGenClass += "+kf-shape"
 				}
 			}
-			st := byte(drawWeighted(rt, []int{8, 17, 17, 20, 28, 10}, "state"))
+			st := byte(drawWeighted(rt, []int{8, 16, 16, 20, 26, 14}, "state"))
 			// most frames come from the session's owner (anything else is dropped at the MAC check)
 			dl := bits(rt, "delivery", 50, 15, 30)
 			return withSel(p, append([]byte{st, dl}, genSrvShape(rt)...)...)
@@ -574,7 +574,7 @@ var authStates = []string{"None", "Pending", "Success"}
 const authSel = 6
 
 var (
-	authIDLens = []int{5, 0, 1, 16, 64, 255, 7, 32}
+	authIDLens = []int{5, 0, 1, 16, 64, 255, 0, 32}
 	authPwLens = []int{6, 0, 1, 16, 64, 255, 8, 100}
 )
 
